@@ -24,9 +24,13 @@ func pure(f specModel) stdModel {
 
 func init() {
 	base := map[string]specModel{
-		"strings.HasPrefix": func(ec *evalCtx, a []Value) Value { return fixModel(ec, "PFX", "str.prefixof", scalar(a[0]), scalar(a[1])) },
-		"strings.HasSuffix": func(ec *evalCtx, a []Value) Value { return fixModel(ec, "SFX", "str.suffixof", scalar(a[0]), scalar(a[1])) },
-		"strings.Contains":  func(ec *evalCtx, a []Value) Value { return mk("str.contains", SBool, scalar(a[0]), scalar(a[1])) },
+		"strings.HasPrefix": func(ec *evalCtx, a []Value) Value {
+			return fixModel(ec, "PFX", "str.prefixof", scalar(a[0]), scalar(a[1]))
+		},
+		"strings.HasSuffix": func(ec *evalCtx, a []Value) Value {
+			return fixModel(ec, "SFX", "str.suffixof", scalar(a[0]), scalar(a[1]))
+		},
+		"strings.Contains": func(ec *evalCtx, a []Value) Value { return mk("str.contains", SBool, scalar(a[0]), scalar(a[1])) },
 		"strings.TrimPrefix": func(ec *evalCtx, a []Value) Value {
 			s, p := scalar(a[0]), scalar(a[1])
 			return Ite(mk("str.prefixof", SBool, p, s), Substr(s, StrLen(p), StrLen(s)), s)
